@@ -488,8 +488,17 @@ def out_lines(text):
     return text.split('\n')
 
 
+MAXLINE = 1500          # code points of one printed line handed to TLC
+MAXROWS = 3000          # result rows of a search handed to TLC (the rest is counted in `more`)
+
+
 def codes(s):
-    return [ord(ch) for ch in s]
+    return [ord(ch) for ch in s[:MAXLINE]]
+
+
+def cap(lines, expected, slack=20):
+    """A broken snapinfo may print without end; TLC only needs enough lines to see that there are too many."""
+    return lines[:expected + slack]
 
 
 # ------------------------------------------------------------------------------------------------
@@ -598,7 +607,7 @@ _T_128 = re.compile(r'([0-7]):([0-9]{5})-([0-9]{5}) ([0-7]):([0-9A-F]{4})-([0-9A
 def parse_find_lines(lines, allbanks, text=None, seqtext=None):
     """-> (rows [space, address, end, distance], fmtbad) or None when a line is not a result line at all."""
     rows, bad = [], 0
-    for ln in lines:
+    for ln in lines[:MAXROWS]:
         if text is None:
             m = (_F_128 if allbanks else _F_48).fullmatch(ln)
             if not m:
@@ -726,7 +735,7 @@ def program_job(job):
     cases = []
     # --basic
     text, err = run_snapinfo(['-b', path])
-    obs = out_lines(text)
+    obs = cap(out_lines(text), len(lines))
     if not wf_prog:
         obs = obs[:len(lines) + 1]          # only the lines before the first ill-formed one are judged
     key = 'basic:%s:%s:%s:%s' % (flavour, machine, fmt, place)
@@ -737,7 +746,7 @@ def program_job(job):
                                  nlines=len(lines), lineno_big=int(any(no_ > 9999 for no_, _ in lines)))))
     # --variables
     text, err = run_snapinfo(['-v', path])
-    obs = out_lines(text) if wf_vars else []      # an ill-formed area is judged for nothing but (as drift) not crashing
+    obs = cap(out_lines(text), len(variables)) if wf_vars else []   # an ill-formed area is judged for nothing but (as drift) not crashing
     key = 'vars:%s:%s:%s:%s' % (flavour, machine, fmt, place)
     cases.append(_case('vars', key, fill, bregs, page, err=err, wf=wf_vars, out=[parse_var_line(s) for s in obs],
                        info=dict(n=n, seed=sd, file=os.path.basename(path), prog=prog, vars=vars_, text=text[:600],
@@ -836,7 +845,9 @@ def memory_job(job):
             pass
         pp = [] if machine == '48K' else ['-P', str(page)]
         text, err = run_snapinfo(args + pp + [path])
-        cases.append(_case(kind, '%s:%s:%s' % (kind, machine, fmt), fill, bregs, page, err=err, specs=specs, open=open_, out=[codes(s) for s in out_lines(text)],
+        nrows = sum((b_ - a_) // c_ + 1 for a_, b_, c_ in specs if b_ >= a_)
+        cases.append(_case(kind, '%s:%s:%s' % (kind, machine, fmt), fill, bregs, page, err=err, specs=specs, open=open_,
+                           out=[codes(s) for s in cap(out_lines(text), nrows)],
                            info=dict(info, args=args + pp, text=text[:400])))
     # ---- --find ---------------------------------------------------------------------------------------------------
     lo = 16384
@@ -858,10 +869,11 @@ def memory_job(job):
         seqtext = ','.join(('0x%02X' % b) if hexa else str(b) for b in seq)
         arg = seqtext + ('' if form == 0 else '-%d' % m_ if form == 1 else '-%d-%d' % (m_, n_))
         text, err = run_snapinfo(['-f', arg] + popt + [path])
+        nres = len(out_lines(text))
         parsed = parse_find_lines(out_lines(text), allbanks, seqtext=seqtext)
         cases.append(_case('find', 'find:%s:%s:%s' % (machine, 'all' if allbanks else 'view', fmt), fill, bregs, page,
                            err=err or ('' if parsed is not None else 'unparsed-output'), seq=seq, m=m_, n=n_, lo=lo, allbanks=allbanks, shadow=0,
-                           x=0, y=0, pic=[], out=parsed[0] if parsed else [], fmtbad=parsed[1] if parsed else 0,
+                           x=0, y=0, pic=[], out=parsed[0] if parsed else [], fmtbad=parsed[1] if parsed else 0, more=max(0, nres - MAXROWS),
                            info=dict(info, args=['-f', arg] + popt, text=text[:400])))
     # ---- --find-text ------------------------------------------------------------------------------------------------
     printable = [a for a in addrs if 33 <= regions[a] <= 126 and regions[a] != 45]
@@ -878,10 +890,11 @@ def memory_job(job):
         if any(b != fill for b in seq):
             textarg = ''.join(chr(b) for b in seq)
             text, err = run_snapinfo(['-t', textarg] + popt + [path])
+            nres = len(out_lines(text))
             parsed = parse_find_lines(out_lines(text), allbanks, text=textarg)
             cases.append(_case('text', 'text:%s:%s:%s' % (machine, 'all' if allbanks else 'view', fmt), fill, bregs, page,
                                err=err or ('' if parsed is not None else 'unparsed-output'), seq=seq, m=1, n=1, lo=lo, allbanks=allbanks, shadow=0,
-                               x=0, y=0, pic=[], out=parsed[0] if parsed else [], fmtbad=parsed[1] if parsed else 0,
+                               x=0, y=0, pic=[], out=parsed[0] if parsed else [], fmtbad=parsed[1] if parsed else 0, more=max(0, nres - MAXROWS),
                                info=dict(info, args=['-t', textarg] + popt, text=text[:400])))
     # ---- --find-tile --------------------------------------------------------------------------------------------------
     form = rng.randrange(3)
@@ -897,10 +910,11 @@ def memory_job(job):
         pic = [int(s[1:9].replace(' ', '0').replace('*', '1'), 2) for s in ol[:8]]
         ol = ol[8:]
     seqtext = ','.join(str(b) for b in tile)
+    nres = len(ol)
     parsed = parse_find_lines(ol, allbanks, seqtext=seqtext)
     cases.append(_case('tile', 'tile:%s:%s:%s' % (machine, 'all' if allbanks else 'view', fmt), fill, bregs, page,
                        err=err or ('' if parsed is not None else 'unparsed-output'), seq=[], m=m_, n=n_, lo=lo, allbanks=allbanks,
-                       shadow=1 if scr == 7 else 0, x=x, y=y, pic=pic, out=parsed[0] if parsed else [], fmtbad=parsed[1] if parsed else 0,
+                       shadow=1 if scr == 7 else 0, x=x, y=y, pic=pic, out=parsed[0] if parsed else [], fmtbad=parsed[1] if parsed else 0, more=max(0, nres - MAXROWS),
                        info=dict(info, args=['-T', arg] + popt, text=text[:400])))
     os.remove(path)
     return cases
@@ -928,7 +942,7 @@ def chars_job(job):
         text, err = run_snapinfo([opt, spec] + pp + [path])
         cases.append(_case(kind, '%s:table:%s:%s' % (kind, machine, fmt), fill, bregs, page, err=err, specs=[[base, last, stepv]],
                            open=1 if kind == 'word' and spec.count('-') == 1 else 0,
-                           out=[codes(s) for s in out_lines(text)],
+                           out=[codes(s) for s in cap(out_lines(text), 256)],
                            info=dict(n=n, seed=sd, file=os.path.basename(path), args=[opt, spec] + pp, text=text[:300], step=stepv)))
     os.remove(path)
     return cases
